@@ -10,7 +10,7 @@ import sys
 repo = sys.argv[1] if len(sys.argv) > 1 else "/repo"
 base = json.load(open("/root/.vp/BASELINE.json"))
 # cargo prints "Running ..." on stderr and results on stdout; re-run merged to keep order
-p = subprocess.run("cargo test --workspace --no-fail-fast --offline 2>&1", cwd=repo, shell=True,
+p = subprocess.run("cargo test -j 8 --workspace --no-fail-fast --offline 2>&1", cwd=repo, shell=True,
                    capture_output=True, text=True)
 out = p.stdout
 passed = set()
